@@ -552,6 +552,39 @@ class ProgGen:
         self.consts.append((name, t, form))
         return L(S(kw), S(name), form)
 
+    def make_constant_chain(self):
+        """constants evaluated at compile time (defconst) that reach another constant only THROUGH an
+        inline function or a macro: (defun-inline bump (V) (+ V BASE)) (defconst BASE 1000)
+        (defconst D1 (bump 1)) — the compiler has to work out the order in which to evaluate them."""
+        rng = self.rng
+        self.use("constants")
+        self.use("inlines")
+        base = self.fresh("K")
+        basev = rng.randint(100, 1000)
+        forms = [L(S(rng.choice(["defconst", "defconstant"])), S(base), I(basev))]
+        via = self.fresh("fi_")
+        a = self.fresh("A")
+        if self.has("macros") and rng.random() < 0.3:
+            self.use("macros")
+            forms.append(L(S("defmacro"), S(via), L(S(a)), L(S("qq"), L(S("+"), L(S("unquote"), S(a)), S(base)))))
+            self.macros.append((via, 1, "int"))
+        else:
+            body = L(S("+"), S(a), S(base))
+            forms.append(L(S("defun-inline"), S(via), L(S(a)), body))
+            self.fns.append({"name": via, "inline": True, "ret": "int", "pattern": L(S(a)),
+                             "shape": ("plist", [("leaf", a, "int")], None), "body": body})
+        prev = None
+        for _ in range(rng.randint(1, 3)):
+            k = self.fresh("K")
+            arg = S(prev) if prev is not None and rng.random() < 0.5 else I(rng.randint(1, 9))
+            forms.append(L(S("defconst"), S(k), L(S(via), arg)))
+            self.consts.append((k, "int", None))
+            prev = k
+        self.consts.append((base, "int", None))
+        self.chain_last = prev
+        rng.shuffle(forms)
+        return forms
+
     def make_macro(self):
         rng = self.rng
         name = self.fresh("mac_")
@@ -586,8 +619,12 @@ class ProgGen:
                 helpers.append(self.make_function(True))
             elif self.has("functions"):
                 helpers.append(self.make_function(False))
+        if self.has("constants") and self.has("inlines") and rng.random() < 0.25:
+            helpers += self.make_constant_chain()
         ret = rng.choice(["int", "int", "bytes", "ilist", "any"])
         body = self.expr(Scope(types), ret, rng.randint(1, 4))
+        if getattr(self, "chain_last", None) and rng.random() < 0.7:
+            body = L(S("c"), S(self.chain_last), body)      # make sure the computed constant is used
         forms = [S("mod"), pat]
         sig = SIGILS[self.dialect]
         if sig:
